@@ -63,7 +63,7 @@ def exotic_rules(r, letters):
     start, translate a whole string in computer braille, skip repetitions ...): any of them can fail to advance"""
     L = [chr(c) for c in letters if c != 32]
     w = lambda n: "".join(r.choice(L) for _ in range(n))
-    out = ["punctuation - 36", "digit 1 2", "digit 2 23"]
+    out = ["punctuation - 36", "punctuation . 256", "digit 1 2", "digit 2 23"]
     d1 = lambda: tablegen.dots_text(r.range(1, 63))
     pool = [
         "seqdelimiter -", "seqbeforechars -", "seqafterchars -", "nocont %s" % w(r.range(1, 3)), "nocont %s" % w(3),
@@ -78,15 +78,16 @@ def exotic_rules(r, letters):
     # searches inside a pass test, nocont / compbrl strings that begin or end with a blank
     groups = [
         ["nocont \\s%s" % w(1)], ["nocont %s\\s" % w(1)], ["nocont \\s%s\\s" % w(2)],
-        ["nonumsign 56", "nocontractsign 56", "numericmodechars .-", "seqdelimiter -", "nocont %s" % w(2), "numsign 3456", "punctuation . 256"],
+        ["seqdelimiter -", "nocont %s" % w(r.range(1, 2)), "always %s 1-1" % w(2)], ["seqdelimiter -", "nocont .%s" % w(1)],
+        ["nonumsign 56", "nocontractsign 56", "numericmodechars .-", "seqdelimiter -", "nocont %s" % w(2), "numsign 3456"],
         ["numericnocontchars %s" % w(2), "midendnumericmodechars -", "nonumsign 56", "numsign 3456", "nocont %s" % w(1), "seqdelimiter -"],
         ["repword - 36-36", 'noback context []"-" ?'], ["repword -- 36", 'noback context "-"[] ?', 'noback context []"%s" ?' % w(1)],
         ["rependword - 36,36-36", 'noback context []"-" *'],
-        ["noback pass2 @%s/~ @%s" % (d1(), d1())], ["noback pass2 @%s/` @%s" % (d1(), d1())], ["noback pass2 /@%s~ ?" % d1()],
-        ['noback correct "%s"/"%s"~ ?' % (w(1), w(1))], ["noback pass3 /@%s/@%s ?" % (d1(), d1())], ["noback pass2 [/@%s] *" % d1()],
+        ["noback pass2 @%s/~ @%s" % (d1(), d1())], ["noback pass2 @%s/` @%s" % (d1(), d1())], ["noback pass2 @%s/@%s~ ?" % (d1(), d1())],
+        ['noback correct "%s"/"%s"~ ?' % (w(1), w(1))], ["noback pass3 @%s/@%s/@%s ?" % (d1(), d1(), d1())], ["noback pass2 @%s[/@%s] *" % (d1(), d1())],
         ["lowercase z 1356", "lowercase y 13456", "attribute acute z", "attribute grave y", "base uppercase %s %s" % (L[0].upper(), L[0]),
          "base acute \\x00e1 %s" % L[0], "base grave \\x00e0 \\x00e1", "capsletter 6"],
-        ["base uppercase %s %s" % (L[0].upper(), L[0]), "base uppercase \\x00c1 %s" % L[0].upper(), "capsletter 6", "begcapsword 6-6"],
+        ["lowercase z 1356", "attribute acute z", "base uppercase %s %s" % (L[0].upper(), L[0]), "base acute \\x00c1 %s" % L[0].upper(), "capsletter 6", "begcapsword 6-6"],
     ]
     extra = []
     for g in r.sample(groups, r.range(0, 3)):
@@ -138,8 +139,20 @@ def run(chk):
             chk.tally("tables_rejected_by_the_compiler")
             continue
         lines, meta = [], []
-        for k in range(24 if quick else 80):
-            back = r.chance(0.45)
+        # operand strings of the table's own special main-pass rules: inputs are built around them, because the handlers
+        # that rewind or skip (nocont, compbrl, repeated, replace ...) only run where their string occurs
+        specials = []
+        for tline in (text or "").splitlines():
+            tw = tline.split()
+            if len(tw) >= 2 and tw[0] in ("nocont", "compbrl", "literal", "replace", "contraction", "repeated", "joinword", "largesign",
+                                          "comp6", "syllable", "partword", "begword", "lowword", "noletsign", "repword", "rependword"):
+                sp = tw[1].replace("\\s", " ")
+                if sp and all(ord(c) < 128 for c in sp) and "\\" not in sp:
+                    specials.append([ord(c) for c in sp])
+        ncase = 24 if quick else 80
+        naimed = (10 if quick else 40) if specials and letters is not None else 0
+        for k in range(ncase + naimed):
+            back = r.chance(0.45) and k < ncase
             if letters is None:
                 inp = [c for c in safety.gen_input(r, 30) if c] or [97]
                 mode = r.choice([0, 4, 1, 128, 256])
@@ -148,9 +161,27 @@ def run(chk):
             else:
                 inp = [r.choice(cells if back else letters) for _ in range(r.range(1, 14))]
                 mode = 4 | r.choice([0, 0, 1, 1, 128, 256, 16, 64, 1 | 128])   # dotsIO plus other mode bits (noContractions, ...)
+            tfm = None
+            if not back and letters is not None and specials and (k >= ncase or r.chance(0.3)):
+                # word = some characters, possibly a sequence delimiter, some more, then the rule's string
+                wl = [c for c in letters if c not in (32, 45)] or [97]
+                pre = [r.choice(wl) for _ in range(r.range(0, 3))]
+                if r.chance(0.7):
+                    pre += [45] + [r.choice(wl) for _ in range(r.range(0, 2))]
+                if k >= ncase:
+                    mode = 4 | r.choice([0, 0, 0, 0, 128, 256, 16, 64, 1])
+                inp = ([r.choice(letters) for _ in range(r.range(0, 2))] + [32] if r.chance(0.3) else []) + pre + r.choice(specials) + \
+                    [r.choice(letters) for _ in range(r.range(0, 3))]
+            if not back and letters is not None and 45 in inp[:-1] and r.chance(0.6):
+                # one marked character in front of the first sequence delimiter, the rest plain
+                tfm = [0] * len(inp)
+                tfm[r.range(0, max(0, inp.index(45) - 1))] = r.choice([0x1000, 0x1000, 0x400, 0x800])
+            elif not back and r.chance(0.4):
+                # typeform bits steer the main loop's contraction state (no_contract, computer_braille, no_translate)
+                tfm = [r.choice([0, 0, 0, 0x1000, 0x1000, 0x400, 0x800, 1]) for _ in inp] if r.chance(0.7) else safety.gen_typeform(r, len(inp))
             outlen = r.choice([4 * len(inp) + 10, 4 * len(inp) + 10, r.range(0, len(inp) + 2), 3 * len(inp)])
             fn = "B" if back else "T"
-            lines.append(trans.case_line(fn, mode, inp, outlen, presence=12))
+            lines.append(trans.case_line(fn, mode, inp, outlen, presence=12 | (1 if tfm else 0), typeform=tfm))
             meta.append((fn, len(inp), outlen))
         # budget: 4x the proved bound for the largest case of this batch, plus slack for pattern/hyphenation sites
         B = max(bound_for(L, O) for _, L, O in meta)
